@@ -384,6 +384,19 @@ func (s *Sim) natsStep(d Decision) {
 			break
 		}
 		pl := fmt.Sprintf(`{"e":%d}`, len(u.Sent))
+		// any JSON value is a legal event payload
+		switch len(u.Sent) % 7 {
+		case 1:
+			pl = "true"
+		case 2:
+			pl = fmt.Sprintf(`"s%d"`, len(u.Sent))
+		case 3:
+			pl = "null"
+		case 4:
+			pl = fmt.Sprintf("%d", len(u.Sent))
+		case 5:
+			pl = "false"
+		}
 		u.Sent = append(u.Sent, pl)
 		w.queue = append(w.queue, &natsQueued{sub: u, pl: pl})
 		w.write(fmt.Sprintf("MSG %s.change %s %d\r\n%s\r\n", u.NS, sid, len(pl), pl))
